@@ -75,7 +75,9 @@ Mismatch(S, e, c, o) ==
   LET T   == o.st
       n   == MinN(T.count, e.count)
       lt  == LinkTuples(T)
-      ok  == e.res \in o.res
+      \* "ErrUnknown": an error variant the recorder could not classify (renamed / new) - accepted
+      \* wherever the specification expects a refusal with a reason
+      ok  == e.res \in o.res \/ (e.res = "ErrUnknown" /\ o.res \cap {"Self", "Removed", "Ancestor"} # {})
       fail == e.res # "Ok"
       ep  == IF fail THEN "C05" ELSE EffectProp(e.op)
   IN
